@@ -124,16 +124,24 @@ def r2(ctx, prog):
                 # guarded by end_pos == pos (CRLF found at the cursor)
                 for cond, k, b in f.cfg.controlling_branches(p):
                     cs = f.s(f.strip_casts(cond))
-                    if cs and cs['k'] == 'BinaryOperator' and cs.get('op') == '==' and k == 0:
+                    while cs and cs['k'] == 'UnaryOperator' and cs.get('op') == '!':
+                        cs = f.s(f.strip_casts(cs['ch'][0]))
+                    rel = q.edge_relation(f, cond, k)
+                    if cs and cs['k'] == 'BinaryOperator' and rel is not None and rel[1] == '==':
                         ds = {f.s(f.strip_casts(x)).get('d') for x in cs['ch']}
                         if posd['d'] in ds and ds & crlf_vars:
                             ok, why = True, 'past a CRLF found at the cursor'
             elif (f.field_of(st['ch'][1]) or '').endswith('content_length_'):
                 for cond, k, b in f.cfg.controlling_branches(p):
-                    cs = f.s(f.strip_casts(cond))
-                    if cs and cs['k'] == 'BinaryOperator' and cs.get('op') == '>=' and k == 0 and \
-                            (f.field_of(cs['ch'][1]) or '').endswith('content_length_') and 'data_size' in q.subtree_paths(f, cs['ch'][0]) and 'pos' in q.subtree_paths(f, cs['ch'][0]):
-                        ok, why = True, 'by the body length after the (data_size - pos) >= content_length_ test'
+                    # (data_size - pos) >= content_length_, in any spelling / orientation / polarity
+                    for l_, o_, r_ in q.edge_rels(f, cond, k):
+                        cs = f.s(f.strip_casts(cond))
+                        while cs and cs['k'] == 'UnaryOperator' and cs.get('op') == '!':
+                            cs = f.s(f.strip_casts(cs['ch'][0]))
+                        if o_ in ('>=', '>') and r_.endswith('content_length_') and cs and cs['k'] == 'BinaryOperator':
+                            other = cs['ch'][0] if (f.field_of(cs['ch'][1]) or '').endswith('content_length_') else cs['ch'][1]
+                            if 'data_size' in q.subtree_paths(f, other) and 'pos' in q.subtree_paths(f, other) and q.expr_text(f, other) in ('(data_size-pos)',):
+                                ok, why = True, 'by the body length after the (data_size - pos) >= content_length_ test'
         ctx.ob('C12.R2', '%s|cursor@%s' % (f.name, why.replace(' ', '-')), ok, 'cursor update: ' + why, where=f.loc(st['i']))
     # returns: 0 or the cursor
     for r in q.returns(f):
@@ -229,8 +237,7 @@ def r5(ctx, prog):
     # direct send only when index == res_index
     first = sorted(sends, key=lambda s: s['l'])[0]
     g = c.cfg.controlling_branches(q.pt(c, first))
-    ok = any(c.s(c.strip_casts(cond))['k'] == 'BinaryOperator' and c.s(c.strip_casts(cond)).get('op') == '==' and k == 0 and
-             any(x.endswith('res_index') for x in q.subtree_fields(c, cond)) and 'index' in q.subtree_paths(c, cond) for cond, k, b in g)
+    ok = any(q.edge_says(c, cond, k, lambda l: l == 'index', ('==',), lambda r: r.endswith('res_index')) for cond, k, b in g)
     ctx.ob('C12.R5', '%s|in-turn-only' % c.name, ok, 'a response is written directly only when index == res_index', where=c.loc(first['i']))
     finds = [st for st in c.calls() if st.get('fn') == 'find' and st.get('args') and (c.field_of(st['args'][0]) or '').endswith('res_index')]
     ctx.ob('C12.R5', '%s|lookup-next' % c.name, len(finds) >= 1 and all(any(c.cfg.dominates(q.pt(c, i), q.pt(c, fd)) for i in incs) for fd in finds),
